@@ -1,6 +1,6 @@
 (* C14 -- Instances are isolated and results deterministic (functional clauses; the
    concurrency clause is explored by the iso suite, see DESIGN.md 5.14).  Property theorems only. *)
-Require Import Base Token Tree SourceMap Writer Compile WriterSpec WriterProofs.
+Require Import Base Token Tree SourceMap Writer Compile WriterSpec WriterProofs EffectsProofs.
 Require Import Gen.Effects Gen.Printer.
 Require Import List String.
 
